@@ -262,7 +262,9 @@ class GMDistribution:
 
     @staticmethod
     def _normalize_params(means, weights):
-        means = np.atleast_1d(np.squeeze(means))
+        means = np.atleast_1d(means)
+        # Drop singleton axes but keep the component axis: a (1, d) array is one d-dimensional component
+        means = means.reshape((len(means),) + tuple(s for s in means.shape[1:] if s != 1))
         if means.ndim > 2:
             raise ValueError('means.ndim = {} but must be at most 2.'.format(means.ndim))
 
